@@ -73,3 +73,13 @@ V('C14', 'neg-local-alias', F, M + '_describe_array',
   'buf.append(_uint16_packer(1))', 'dims = _uint16_packer(1)\n    buf.append(dims)', None)
 V('C14', 'neg-comment', F, M + '_describe_enum',
   '    # .member_count\n', '    # .member_count (u16)\n', None)
+
+S = 'edb/server/compiler/sertypes.py'
+V('C14', 'tid-implicit-only-with-implicit-id', S, 'edb.server.compiler.sertypes._describe_object_shape',
+  "        if (implicit_id and el_name == 'id') or el_name == '__tid__':", "        if implicit_id and el_name in ('id', '__tid__'):", 'C14.R5', '__tid__-always-implicit')
+V('C14', 'explicit-id-flagged-implicit', S, 'edb.server.compiler.sertypes._describe_object_shape',
+  "        if (implicit_id and el_name == 'id') or el_name == '__tid__':", "        if el_name == 'id' or el_name == '__tid__':", 'C14.R5', 'explicit-id-not-implicit')
+V('C14', 'compound-components-as-regular', S, 'edb.server.compiler.sertypes._describe_compound_object_type',
+  '[_describe_object_type(c, ctx=ctx) for c in components]', '[_describe_regular_object_type(c, ctx=ctx) for c in components]', 'C14.R5', 'calls=_describe_regular_object_type')
+V('C14', 'neg-flag-test-restructured', S, 'edb.server.compiler.sertypes._describe_object_shape',
+  "        if (implicit_id and el_name == 'id') or el_name == '__tid__':", "        if el_name == '__tid__' or (el_name == 'id' and implicit_id):", None)
